@@ -129,6 +129,8 @@ def run(chk: common.Check):
         a = rng.randrange(0, nres - 40)
         fr = structures.fragment(src, a, a + rng.randint(15, 39))
         opts = rng.choice([[], ["-d"], ["-c", "A"], ["-i", "A:25,A:29,A:30"]])
+        if opts[:1] == ["-c"] and not any(l[21] == opts[1] for l in structures.atom_lines(fr)):
+            opts = []      # a selection that leaves no atom is rejected with ValueError by design (C12); not this property's subject
         cases.append((f"1HPX[{a}]", fr, opts, rng.choice(list(cfgs))))
     # alt-loc point mutants (acid in one conformation, amide in the other), both orders, and a repeated-model file
     fr = structures.fragment(src, 20, 45)
